@@ -462,6 +462,32 @@ pub fn wide_ops() -> Vec<Op> {
     ]
 }
 
+pub fn ttl_wrap_ops(persistent: bool) -> Vec<Op> {
+    let a = 0u8;
+    const EDGE: u64 = u64::MAX / 1_000_000_000; // largest TTL whose nanoseconds fit
+    let mut v = vec![
+        ins_ttl(a, V_X, EDGE, 0),
+        ins_ttl(a, V_Y, EDGE + 1, 0),
+        ins_ttl(a, V_X, 1 << 55, 0),
+        ins_ttl(a, V_CNT, (1 << 63) + 1, 0),
+        Op::Insert { k: a, v: V_Y, ts: 0, ttl: 1 << 62, bytes: true },
+        Op::UpdateTtl { k: a, secs: 1 << 55 },
+        Op::UpdateTtl { k: a, secs: EDGE + 1 },
+        Op::Cas { k: a, expect: V_X, new: V_Y, ts: 0, ttl: 1 << 60 },
+        Op::Incr { k: a, delta: 1, ts: 0, ttl: (1 << 55) + 1 },
+        Op::Get(a),
+        Op::GetTtl(a),
+        Op::Advance(0),
+        Op::Sweep,
+        Op::Range { lo: 0, hi: 3, limit: usize::MAX },
+    ];
+    if persistent {
+        v.push(Op::Flush);
+        v.push(Op::Reopen);
+    }
+    v
+}
+
 /// All sequential suites: (suite with its quick depth, thorough depth).
 pub fn all_suites(thorough: bool) -> Vec<Suite> {
     let d = |q: usize, t: usize| if thorough { t } else { q };
@@ -472,6 +498,10 @@ pub fn all_suites(thorough: bool) -> Vec<Suite> {
     mt.ttl = true;
     v.push(suite("mem-ttl", mt, std_tables(), ttl_ops(false), d(5, 6)));
     v.push(suite("mem-wide", mt, std_tables(), wide_ops(), d(4, 5)));
+    // time-to-live values around the points where seconds x 10^9 leaves 64 bits (the documented
+    // behaviour is saturation: such a key never expires)
+    v.push(suite("mem-ttl-wrap", mt, std_tables(), ttl_wrap_ops(false), d(3, 4)));
+    v.push(suite("disk-ttl-wrap-v3", disk(3, true, true), std_tables(), ttl_wrap_ops(true), d(3, 4)));
     // limited scans over a mix of live, expired-but-unswept and deleted keys
     v.push(suite(
         "mem-ttl-range",
